@@ -181,6 +181,20 @@ class Lower:
                     sub = Lower(sc, {'self'}, {}, self.store)
                     # but "self" there is our self
                     return sub.e(body[0].value)
+        # a property that exactly one class of the package defines and that no reference covers: an extracted helper
+        prog = self.scope.program
+        if self.scope.inline_depth < 3 and not name.startswith('__'):
+            cands = [f for f in prog.methods_named(name)]
+            if len(cands) == 1 and cands[0].is_property and cands[0].qualname not in CONTRACTED \
+                    and not any(name in c.class_attrs for c in prog.classes.values()) and name not in prog.stored_attr_names():
+                fi = cands[0]
+                body = [s_ for s_ in fi.node.body if not _is_doc(s_)]
+                sub = FuncLower(prog, fi)
+                sub.scope.inline_depth = self.scope.inline_depth + 1
+                lw = Lower(sub.scope, sub.locals, {fi.params[0]: obj} if fi.params else {}, {})
+                t = _expr_of_block(sub.block(body, lw, ()))
+                if t is not None:
+                    return t
         return ('attr', obj, name)
 
     def e(self, n):
@@ -1105,8 +1119,11 @@ def norm(t):
                 return ('seq', (y,), C(True))
         if a[0] == 'const' and b[0] == 'const':
             try:
+                singletons = (a[1] is None or isinstance(a[1], bool)) or (b[1] is None or isinstance(b[1], bool))
                 r = {'Eq': a[1] == b[1], 'NotEq': a[1] != b[1], 'Lt': a[1] < b[1], 'LtE': a[1] <= b[1],
-                     'Gt': a[1] > b[1], 'GtE': a[1] >= b[1], 'Is': a[1] is b[1], 'IsNot': a[1] is not b[1]}.get(t[1])
+                     'Gt': a[1] > b[1], 'GtE': a[1] >= b[1],
+                     # identity is only decidable for the singletons None / True / False (an int is not an enum member)
+                     'Is': (a[1] is b[1]) if singletons else None, 'IsNot': (a[1] is not b[1]) if singletons else None}.get(t[1])
                 if r is not None:
                     return C(bool(r))
             except TypeError:
